@@ -283,6 +283,55 @@ def process_function(decl, results, structure, reader_kind, bounds):
         bounds.append((fn_tag(decl, None), ci + 1, args))
 
 
+ITEM_TEMPLATES = ('ReadBounds', 'ReadInitialValues', 'ReadLinearExpr', 'ReadSuffix')
+
+
+def segment_handlers(decl, spec_of):
+    """which item handler (template argument) NLReader::Read instantiates in which `case`: returns
+    ([(segment letter, template, handler)], [(suffix kind, template, handler)])"""
+    segs, kinds = [], []
+    def calls_in(n, out):
+        def f(x, p):
+            if x.get('kind') == 'MemberExpr' and x.get('name') in ITEM_TEMPLATES:
+                sp = spec_of.get(x.get('referencedMemberDecl'))
+                if sp is None:
+                    raise TranslateError('call to %s without a known specialization' % x.get('name'))
+                if sp[1] in ('LinearExprHandler', 'NullLinearExprHandler'):
+                    return          # ReadLinearExpr(num_terms, handler): the term loop, no item handler involved
+                out.append(sp)
+        walk(n, f)
+    def scan(sw, sink, depth):
+        body = [c for c in sw.get('inner', []) if c.get('kind') == 'CompoundStmt'][-1]
+        cur = []
+        for child in body.get('inner', []):
+            node = child
+            if node.get('kind') in ('CaseStmt', 'DefaultStmt'):
+                labels = []
+                while node.get('kind') in ('CaseStmt', 'DefaultStmt'):
+                    if node['kind'] == 'CaseStmt':
+                        ce = node['inner'][0]
+                        while ce.get('kind') != 'ConstantExpr' and 'inner' in ce:
+                            ce = ce['inner'][0]
+                        labels.append(int(ce['value']))
+                    node = node['inner'][-1]
+                cur = labels
+            inner_sw = find_all(node, lambda x: x.get('kind') == 'SwitchStmt')
+            if inner_sw and depth == 0:
+                for isw in inner_sw:
+                    scan(isw, kinds, 1)
+                continue
+            found = []
+            calls_in(node, found)
+            for tmpl, handler in found:
+                for lab in cur:
+                    sink.append((lab, tmpl, handler))
+    sws = find_all(decl, lambda x: x.get('kind') == 'SwitchStmt')
+    if not sws:
+        raise TranslateError('no switch in NLReader::Read')
+    scan(sws[0], segs, 0)
+    return segs, kinds
+
+
 def header_script(decl):
     """TextReader::ReadHeader as an ordered script of reads: (call, target field / variable, context) in evaluation
     order; context = nesting of if / for / right operand of && (the optional-field chains)"""
@@ -356,6 +405,14 @@ def main():
     items = {}
     for filt, want_cls in (('NLReader', ('NLReader',)), ('TextReader', ('TextReader',)), ('BinaryReader', ('BinaryReader', 'BinaryReaderBase'))):
         docs = clang_dump(tu, filt, [os.path.join(repo, 'include'), os.path.join(repo, 'src')])
+        spec_of = {}
+        def fs(n, path):
+            if n.get('kind') == 'CXXMethodDecl' and n.get('name') in ITEM_TEMPLATES:
+                targs = [c for c in n.get('inner', []) if c.get('kind') == 'TemplateArgument' and 'type' in c]
+                if targs:
+                    spec_of[n['id']] = (n['name'], targs[0]['type']['qualType'].split('::')[-1])
+        for d in docs:
+            walk(d, fs)
         for d in docs:
             def f(n, path):
                 if n.get('kind') not in ('CXXMethodDecl', 'FunctionDecl'):
@@ -389,6 +446,11 @@ def main():
                         raise TranslateError('num_items of %s differs between instantiations' % recs[-1]['name'])
                     items[recs[-1]['name']] = val
                     return
+                if n.get('name') == 'Read' and specs[-1].get('name') == 'NLReader' and '*' in n['type']['qualType']:
+                    sh = segment_handlers(n, spec_of)
+                    if 'segs' in items and items['segs'] != sh:
+                        raise TranslateError('segment -> item handler mapping differs between instantiations')
+                    items['segs'] = sh
                 if n.get('name') == 'Read' and specs[-1].get('name') == 'NLReader':
                     for asg in find_all(n, lambda x: x.get('kind') == 'BinaryOperator' and x.get('opcode') == '=' and
                                         strip(x['inner'][0]).get('kind') == 'MemberExpr' and strip(x['inner'][0]).get('name') == 'num_vars_and_exprs_'):
@@ -468,6 +530,9 @@ def main():
                 addm(fv)
                 nm = 'bound_%s_%s_%d_%s' % (cls, fn, ci, 'ub' if ai == len(args) - 1 else 'lb')
                 site_defs.append(('site_%s_%s_%d_%s' % (cls, fn, ci, 'ub' if ai == len(args) - 1 else 'lb'), nm, fv))
+    seg_map = items.pop('segs', None)
+    if not seg_map:
+        raise TranslateError('segment -> item handler mapping not found')
     for k2, (fv, e) in items.items():
         addm(fv)
     L.append('/-- the `NLHeader` fields (and the `NLReader` member `num_vars_and_exprs_`) the index bounds read -/')
@@ -492,6 +557,24 @@ def main():
             body = re.sub(r'\b%s\b' % v, 'h.%s' % v, body)
         L.append('def %s (h : Hdr) : Outcome Int :=\n  %s\n' % (nm, body))
         names.append(nm); ptab[nm] = fv
+    segs, kinds = seg_map
+    def chain(pairs, var):
+        t = 'Outcome.throw'
+        for lab, tmpl, handler in reversed(pairs):
+            if 'items_' + handler not in names:
+                raise TranslateError('item handler %s without translated num_items()' % handler)
+            t = 'if %s = %d then items_%s h else %s' % (var, lab, handler, t)
+        return t
+    L.append('/-- `num_items()` of the item handler that `NLReader::Read` instantiates for this segment letter')
+    L.append('    (ReadBounds / ReadInitialValues / ReadLinearExpr template argument); `throw` = no such instantiation -/')
+    L.append('def itemsOfSegment (h : Hdr) (letter : Int) : Outcome Int :=\n  %s\n' % chain(segs, 'letter'))
+    L.append('/-- `num_items()` of the item handler `ReadSuffix<..>` is instantiated with for this suffix kind -/')
+    L.append('def itemsOfSuffixKind (h : Hdr) (kind : Int) : Outcome Int :=\n  %s\n' % chain(kinds, 'kind'))
+    L.append('/-- (segment letter or suffix kind, template, item handler) in source order -/')
+    L.append('def segmentHandlers : List (Int × String × String) := [' + ', '.join('(%d, "%s", "%s")' % t for t in segs + kinds) + ']')
+    L.append('')
+    names += ['itemsOfSegment', 'itemsOfSuffixKind']
+    ptab['itemsOfSegment'] = ['letter']; ptab['itemsOfSuffixKind'] = ['kind']
     L.append('/-- free variables (source names) of every translated definition, in parameter order -/')
     L.append('def paramTable : List (String × List String) := [' + ', '.join('("%s", [%s])' % (n, ', '.join('"%s"' % v for v in ptab[n])) for n in names) + ']')
     L.append('')
